@@ -234,6 +234,11 @@ class Runner:
                         e.revert(m.tree)
                     if kind != "undo_drop":
                         m.redo.extend(reversed(undone))
+                    else:
+                        # changes waiting in the redo list that were made on top of a dropped change lose their basis
+                        for r in m.redo:
+                            if any(related(a, b) for d_ in undone for a in d_.touched for b in r.touched):
+                                r.orphan = True
             if kind == "undo_sel":
                 target = h.undo_list[ev[1]] if ev[1] < len(h.undo_list) else None
                 call = lambda: h.undo(change=target)
@@ -250,6 +255,9 @@ class Runner:
                 feats.append("closure:%d" % len(redone))
                 for e in redone:
                     m.redo.remove(e)
+                if any(getattr(e, "orphan", False) for e in redone):
+                    feats.append("redo-of-a-change-whose-basis-was-dropped")
+                    m.tainted = True
                 for e in reversed(redone):
                     if not e.apply(m.tree, False):
                         feats.append("model-redo-infeasible")
@@ -259,6 +267,8 @@ class Runner:
                 call = lambda: h.redo(change=target)
             else:
                 call = lambda: h.redo()
+        if getattr(m, "tainted", False) and "redo-of-a-change-whose-basis-was-dropped" not in feats:
+            feats.append("after-redo-of-a-change-whose-basis-was-dropped")
         # ---- real transition
         try:
             ret = call()
